@@ -119,7 +119,7 @@ PROPS = {
         "design_ref": "DESIGN.md §3.2, §4 C07",
         "level_text": "At every state-changing system call of node creation, service/port creation, traffic and shutdown of a victim process, a second process "
                       "lists the nodes while the victim is stopped there (it must never be reported dead) and again after the victim was killed there (within "
-                      "the creation timeout it must be reported dead or absent, never alive/undefined for ever, and a dead node must be collectable).",
+                      "the creation timeout it must be reported dead or absent, never alive/undefined for ever, and a dead node must be collectable). Cleanup exclusivity is additionally enumerated for two cleaner THREADS of one process (thread A held before each libc call of its cleanup while thread B runs its attempt): at most one reports success.",
         "level_note": "trusted: ptrace stepping; not covered: interleavings inside the monitor's decision tree, 2..4 concurrent cleaners, a cleaner that dies itself (planned legs, see DESIGN.md §7)",
     },
     "C13": {
@@ -132,7 +132,7 @@ PROPS = {
         "design_ref": "DESIGN.md §3.1, §4 C13",
         "level_text": "All schedules of 2-3 threads attaching, using, detaching and force-removing the sender and receiver role of one connection name are executed on the "
                       "real code up to the stated bounds: never two holders of one role, a live port always sits on an existing resource, mismatches are refused, after the "
-                      "last detach the resource is gone and the name reusable; plus the offset conservation of the data path (also part of C03).",
+                      "last detach the resource is gone and the name reusable; plus the offset conservation of the data path (also part of C03). Sequential leg (h_connseq): every history of attach with matching or mismatching parameters (also as duplicate of a held role), detach, forced removal and data exchange on three connection implementations agrees with a reference model after every step: refusals with the matching error, the attached side undisturbed (does_exist, is_connected, parameters, round trip), resource gone exactly after the last detach, name reusable.",
         "level_note": "trusted: ixmc scheduler incl. its mutex model; bounded: <=3 threads, <=4 steps each, PB<=2 quick (1 for 3 threads) / <=3 thorough; sequential histories to the depths above",
     },
     "C14": {
@@ -162,7 +162,7 @@ PROPS = {
         "rule": "see coverage.legs[0].rule",
         "assumptions": ["single-threaded histories; depth 4 (quick) / 5-6 + frontier to 10 (thorough) after the geometry-selecting Setup step", "bucket sizes 1..33 (+64,100,128,4096) x alignments 1..64 and 4096 incl. sizes that are not multiples of the alignment; region start misaligned by 0/1/align-1; room for 0..4 buckets plus a partial one", "port level: local service, [u8]/[u64] slices, strategies Static/BestFit/PowerOfTwo, up to 3 held samples"],
         "design_ref": "DESIGN.md §3.3, §4 C15",
-        "level_text": "All histories up to the depth on the real bb-memory pool / fixed-size pool / bump / one-chunk allocators and the cal shm pool / bump allocators, for every listed bucket layout, geometry and request layout: every returned block is inside the region, aligned as requested, fully writable, disjoint from all live blocks (unique byte patterns re-verified after every step), failures are the documented errors and change nothing, freed buckets are reusable; at port level samples held across segment growth stay byte-identical.",
+        "level_text": "All histories up to the depth on the real bb-memory pool / fixed-size pool / bump / one-chunk allocators and the cal shm pool / bump allocators, for every listed bucket layout, geometry and request layout: every returned block is inside the region, aligned as requested, fully writable, disjoint from all live blocks (unique byte patterns re-verified after every step), failures are the documented errors and change nothing, freed buckets are reusable; at port level samples held across segment growth stay byte-identical. Resizable shared memory (DynamicMemory over the pool allocator, process-local and posix): all allocate / deallocate / grow histories with up to 4 live chunks across segments; request-response with a dynamically growing response segment and two clients.",
         "level_note": "trusted: seqx enumeration, the interval model; bounded as stated; concurrency of the pool allocator is C09",
     },
     "C18": {
@@ -202,7 +202,7 @@ PROPS = {
         "rule": "see coverage.legs[0].rule",
         "assumptions": ["as C01 (sequential leg)", "request/response payload lifetime: h_reqres leg (fixed-size payloads, static segments) and the request-response family of h_alloc (slice responses out of a dynamically growing server segment, two clients, one of which may vanish)"],
         "design_ref": "DESIGN.md §3.3, §4 C02",
-        "level_text": "Over the same histories and configurations as C01: the bytes seen through every held sample, orphan sample and unsent loan are re-read after EVERY step and must never change; every new loan's chunk must not still have a holder in the model (sample, buffer entry, history slot, loan); after every step a self-undoing probe must obtain exactly max_loaned_samples minus outstanding loans; at the end of every history the publisher must again obtain its full number of loans.",
+        "level_text": "Over the same histories and configurations as C01: the bytes seen through every held sample, orphan sample and unsent loan are re-read after EVERY step and must never change; every new loan's chunk must not still have a holder in the model (sample, buffer entry, history slot, loan); after every step a self-undoing probe must obtain exactly max_loaned_samples minus outstanding loans; at the end of every history the publisher must again obtain its full number of loans. Request-response flavour with a dynamically growing response segment (h_alloc --prop C02): two clients, one may vanish; every response a client receives or holds carries exactly the written bytes, also after the other client vanished and the server cleaned up its connection.",
         "level_note": "trusted: seqx engine, the holder model; bounded as C01",
     },
     "C08": {
@@ -212,7 +212,7 @@ PROPS = {
         "rule": "see coverage.legs[0].rule",
         "assumptions": ["publish-subscribe loan/borrow/buffer limits: h_pubsub leg; request-response limits: h_reqres leg; wait-set attachment limit: C20", "limit values 1..3 (0 where accepted)", "port, node and event-id limits (h_limits): limits in {1,2}, event_id_max_value in {0,1,2}, local service in the quick tier (tree depth 4 + frontier over all model states to depth 10), ipc added in the thorough tier; the creator's node counts towards max_nodes, a second handle of a registered node does not"],
         "design_ref": "DESIGN.md §3.3, §4 C08",
-        "level_text": "Over all histories up to the depth, including macro operations that fill every subscriber buffer, borrow the maximum and take all loans: a loan never fails for lack of memory and a release never for lack of queue space; after every step every limit-exceeding call (one publisher, subscriber, loan, borrow, buffer or history request too many) must fail with its documented error, leave all observables unchanged (control run) and succeed again once capacity is freed.",
+        "level_text": "Over all histories up to the depth, including macro operations that fill every subscriber buffer, borrow the maximum and take all loans: a loan never fails for lack of memory and a release never for lack of queue space; after every step every limit-exceeding call (one publisher, subscriber, loan, borrow, buffer or history request too many) must fail with its documented error, leave all observables unchanged (control run) and succeed again once capacity is freed. Port, node and event-id limits (all four messaging patterns, h_limits): every history of port creation / drop, of opening / dropping the service from further nodes and of notify with ids at the bound; one too many fails with the documented ExceedsMax... / EventIdOutOfBounds error, leaves port counts, node list, files and the live ports' data path unchanged, and succeeds after a drop.",
         "level_note": "trusted: seqx engine, the reference model; bounded as C01",
     },
     "C06": {
@@ -222,7 +222,7 @@ PROPS = {
         "rule": "one case = (messaging pattern: publish-subscribe | event | request-response | blackboard (creator/opener only), per-thread call: create(settings) | open | open_or_create(settings) | create-then-drop | open-then-drop); every schedule within the preemption bound is executed on the real code (local service: process-local storages, their pthread mutex and the clock under scheduler control); outcome = what every call returned",
         "assumptions": IXMC_ASSUME + ["thread leg: local::Service (process-local static/dynamic storages); process leg: ipc::Service (files + shared memory), two processes, the first one stopped before each visible system call of its service creation and of its service drop while the second runs one complete call (one preemption, system-call granularity; the first party's creation_timeout is 20 s so that time spent stopped is not counted against its retry budget, the second party's is 40 ms)", "scheduling points on locations that only one thread touches after the setup phase, or that nobody writes, are elided (learned set, iterated to a fixed point)"],
         "design_ref": "DESIGN.md §3.1, §4 C06",
-        "level_text": "All schedules (preemption bound) of 2-3 nodes that create, open, open-or-create and drop the same service concurrently are executed on the real builder code: at most one creation succeeds, all live handles report the one configuration some creator asked for, every call returns a service or a documented contention error, the service exists while a handle lives, disappears with the last one and can then be created with other settings.",
+        "level_text": "All schedules (preemption bound) of 2-3 nodes that create, open, open-or-create and drop the same service concurrently are executed on the real builder code: at most one creation succeeds, all live handles report the one configuration some creator asked for, every call returns a service or a documented contention error, the service exists while a handle lives, disappears with the last one and can then be created with other settings. Process leg (ptx --prop C06, ipc services): for every pair of (create | open_or_create) in one process and (create | open | open_or_create) in another, the first process is stopped before every visible system call of its creation and of its drop while the second runs its call; same oracles plus 'a granted handle can create a port' and 'nothing left in the domain'.",
         "level_note": "trusted: ixmc scheduler incl. mutex/clock model and the elision argument (DESIGN.md §3.1); bounded: 2-3 threads, one call each, PB 1 quick / 2 thorough; 2 processes, one preemption at system-call granularity",
     },
     "C11": {
@@ -252,7 +252,7 @@ PROPS = {
         "rule": "see coverage.legs[0].rule",
         "assumptions": ["history depth 6 (local) / 4 (ipc) in quick, deeper in thorough; 1-4 listeners over 1-2 services", "deadlines and intervals use durations that never expire during an exhaustive run; expiry itself is exercised by two dedicated configurations with 1 ms timers and a 5 ms sleep (no virtual clock)", "the attachment capacity is the reactor's (FD_SETSIZE for posix-select, max_user_watches for epoll): 'one attachment too many' runs on the select variant only"],
         "design_ref": "DESIGN.md §3.3, §4 C20",
-        "level_text": "Every history up to the depth is executed on the real WaitSet: each processing call must invoke the callback exactly for the attachments whose listener has undrained events (level triggered), once each, never for a dropped guard or a foreign object; what is drained must equal what was notified; a notify between or during processing calls is reported by the next one; attaching twice or beyond capacity is refused with the documented error and changes nothing; descriptor reuse after detach works.",
+        "level_text": "Every history up to the depth is executed on the real WaitSet: each processing call must invoke the callback exactly for the attachments whose listener has undrained events (level triggered), once each, never for a dropped guard or a foreign object; what is drained must equal what was notified; a notify between or during processing calls is reported by the next one; attaching twice or beyond capacity is refused with the documented error and changes nothing; descriptor reuse after detach works. Expiry of deadlines and intervals is part of the enumerated alphabet through a virtual clock (operation Advance): a timer is reported iff one of its period boundaries passed since the previous processing call, a deadline whose listener has an event pending starts anew.",
         "level_note": "trusted: seqx engine, the event model; bounded as stated",
     },
 }
